@@ -22,17 +22,20 @@ class Intersect:
     nfree = 0
     max_degree = 2
 
-    def __init__(self, A, B, lim=3, direction=(3, 1), premove=False):
+    def __init__(self, A, B, lim=3, direction=(3, 1), premove=False, dof=1):
         """premove: the second curve is first built far away, intersected once, and then moved in place to its
         position (an intersection must not depend on what the curve was asked before)"""
         self.A, self.B, self.lim, self.premove = A, B, lim, premove
         self.dir = (F(direction[0]), F(direction[1]))
-        self.names = ["t"]
+        self.dof = dof
+        self.names = ["t"] if dof == 1 else ["tx", "ty"]
 
     def domain(self, xs):
-        return [xs[0] >= -self.lim, xs[0] <= self.lim]
+        return [c for x in xs for c in (x >= -self.lim, x <= self.lim)]
 
     def shift(self, xs):
+        if self.dof == 2:
+            return xs[0], xs[1]
         return xs[0] * self.dir[0], xs[0] * self.dir[1]
 
     def run(self, xs):
@@ -300,6 +303,7 @@ def specs(tier):
     for a, b in [("qa", "qb"), ("ca", "la")] + ([("qa", "ca"), ("ca", "qb")] if tier != "quick" else []):
         out.append(dict(module="checks.c14", scenario="FilterStage", params=dict(A=a, B=b), time_budget=60 if tier == "quick" else 900))
     if tier != "quick":
+        out += [dict(module="checks.c14", scenario="Intersect", params=dict(A=a, B=b, dof=2, lim=2), time_budget=1500) for a, b in [("square", "unit"), ("tri", "unit"), ("penta", "tri")]]
         out += [dict(module="checks.c14", scenario="Intersect", params=dict(A=a, B=b, direction=(1, 2))) for a, b in pairs]
         out += [dict(module="checks.c14", scenario="Intersect", params=dict(A=a, B=b, direction=(1, 0))) for a, b in pairs]
     return out
